@@ -29,7 +29,7 @@ class SourceLinkContainer(LinkContainer):
         super(SourceLinkContainer, self).__init__("sources", parent, Source,
                                                   parent._parent.sources)
 
-    def append(self, item):
+    def _checked(self, item):
         if util.is_uuid(item):
             item = self._inst_item(self._backend.get_by_id(item))
 
@@ -40,4 +40,4 @@ class SourceLinkContainer(LinkContainer):
                                                     x.id == item.id):
             raise RuntimeError("This item cannot be appended here.")
 
-        self._backend.create_link(item, item.id)
+        return item
